@@ -120,6 +120,13 @@ func runC08(r *vf.Run) {
 			snapNil := q.GroupBy == nil
 			steps := 2 + rng.Intn(4)
 			var history []string
+			// results handed out earlier must stay what they were when later executions run
+			type kept struct {
+				res  *updog.Result
+				copy *updog.Result
+				step int
+			}
+			var earlier []kept
 			for s := 0; s < steps; s++ {
 				if s > 0 && qi%3 == 1 && rng.Intn(2) == 0 {
 					// the caller edits its Query value in place between two executions (e.g. loops over values with one
@@ -155,6 +162,19 @@ func runC08(r *vf.Run) {
 					if (ferr == nil) != (err == nil) || (ferr == nil && !reflect.DeepEqual(fres, res)) {
 						diff = fmt.Sprintf("differs from a freshly constructed equal query: %v/%v vs %v/%v", res, err, fres, ferr)
 					}
+				}
+				for _, k := range earlier {
+					if !reflect.DeepEqual(k.res, k.copy) {
+						r.Violation(qid, "earlier-result-changed", map[string]any{"result_of_execution": k.step + 1, "changed_after_execution": s + 1, "was": fmt.Sprintf("%+v", k.copy), "is_now": fmt.Sprintf("%+v", k.res), "history": history})
+						diff = "x"
+						break
+					}
+				}
+				if diff == "x" {
+					break
+				}
+				if res != nil && err == nil {
+					earlier = append(earlier, kept{res, deepCopyResult(res), s})
 				}
 				if diff != "" {
 					r.Violation(qid, "answer", map[string]any{"difference": diff, "expr": e.String(), "group_by": fmt.Sprintf("%q", gb), "execution_number": s + 1, "history": history,
@@ -273,4 +293,18 @@ func editInPlace(rng *rand.Rand, e *oracle.Expr, q *updog.Query, ds *gen.Dataset
 		}
 	}
 	return "none"
+}
+
+func deepCopyResult(r *updog.Result) *updog.Result {
+	c := &updog.Result{Count: r.Count}
+	if r.Groups != nil {
+		c.Groups = make([]updog.ResultGroup, len(r.Groups))
+		for i, g := range r.Groups {
+			c.Groups[i].Count = g.Count
+			if g.Fields != nil {
+				c.Groups[i].Fields = append([]updog.ResultField{}, g.Fields...)
+			}
+		}
+	}
+	return c
 }
